@@ -207,6 +207,63 @@ def all_regexps(ops, leaves):
     return gen(ops)
 
 
+def _abs_trees(n, leaves):
+    if n == 0:
+        yield from leaves
+        return
+    for r in _abs_trees(n - 1, leaves):
+        yield ("star", r)
+    for k in range(n):
+        for l in _abs_trees(k, leaves):
+            for r in _abs_trees(n - 1 - k, leaves):
+                yield ("sum", l, r)
+                yield ("cat", l, r)
+
+
+def _holes(t):
+    return (1 if t == "#" else 0) if isinstance(t, str) else sum(_holes(x) for x in t[1:])
+
+
+def _nullable(t):
+    if isinstance(t, str):
+        return t == "1"
+    if t[0] == "star":
+        return True
+    if t[0] == "sum":
+        return _nullable(t[1]) or _nullable(t[2])
+    return _nullable(t[1]) and _nullable(t[2])
+
+
+def _subst(t, c):
+    if isinstance(t, str):
+        return c if t == "#" else t
+    return (t[0],) + tuple(_subst(x, c) for x in t[1:])
+
+
+def _build_re(t):
+    from gambatools import regexp as R
+    if isinstance(t, str):
+        return R.Zero() if t == "0" else R.One() if t == "1" else R.Symbol(t)
+    if t[0] == "star":
+        return R.Iteration(_build_re(t[1]))
+    return (R.Sum if t[0] == "sum" else R.Concat)(_build_re(t[1]), _build_re(t[2]))
+
+
+def context_regexps(which):
+    """CONTEXT[CORE] trees of depth up to 4: every core with 1-2 operators over {1,a,b} placed in every context with
+    1-2 operators over {#,1,a,b} (one hole): 78 204 trees with 2-4 operators, a structured slice of the 80 535 + ...
+    trees of that size.  which = 'star_nullable': only the cores that are a star over a nullable expression (a**,
+    (1+a)*, ...: automata whose initial state is accepting and re-entered); 'rest': the others."""
+    cores = [t for n in (1, 2) for t in _abs_trees(n, ["1", "a", "b"])]
+    ctxs = [t for n in (1, 2) for t in _abs_trees(n, ["#", "1", "a", "b"]) if _holes(t) == 1]
+    for c in cores:
+        sn = c[0] == "star" and _nullable(c[1])
+        if (which == "star_nullable") != sn:
+            continue
+        for k in ctxs:
+            yield _build_re(_subst(k, c))
+
+
 def random_regexp(rng, ops, syms, p_zero=0.12, p_one=0.15):
     from gambatools import regexp as R
     if ops == 0:
